@@ -1,4 +1,5 @@
 import PvModel.Props.C24
+import PvModel.Props.C24Sem
 #print axioms Pv.C24_cons
 #print axioms Pv.C24_empty
 #print axioms Pv.C24_cons_sound
@@ -6,3 +7,18 @@ import PvModel.Props.C24
 #print axioms Pv.C24_first_rest
 #print axioms Pv.C24_member_clauses
 #print axioms Pv.C24_append_clauses
+#print axioms Pv.C24_engine_is_bigstep
+#print axioms Pv.C24_sound
+#print axioms Pv.C24_append_sound
+#print axioms Pv.C24_member_sound
+#print axioms Pv.C24_member1_sound
+#print axioms Pv.C24_rember_sound
+#print axioms Pv.C24_distinct_sound
+#print axioms Pv.C24_permute_sound
+#print axioms Pv.C24_permute_spec
+#print axioms Pv.C24_permute_D20
+#print axioms Pv.C24_append_spec
+#print axioms Pv.C24_member_spec
+#print axioms Pv.C24_member1_spec
+#print axioms Pv.C24_rember_spec
+#print axioms Pv.C24_distinct_spec
